@@ -45,6 +45,13 @@ pub fn configs(thorough: bool) -> Vec<(String, HCfg)> {
         ("capacity-1".to_string(), quiet(4, vec![req(0, 1, Body::Ping), req(0, 2, Body::Ping), req(3, 0, Body::Ping), req(0, 1, Body::Talk)], Some(1))),
         ("capacity-2".to_string(), quiet(4, vec![req(0, 1, Body::Ping), req(0, 2, Body::Ping), req(0, 3, Body::Ping), req(0, 1, Body::Talk)], Some(2))),
     ];
+    // crossing handshakes with free application timing and a session timeout of the order of the
+    // request timeout: a who-are-you query answered late leaves a challenge outstanding next to a
+    // live session
+    let mut crossing = quiet(2, vec![req(1, 0, Body::Ping), req(0, 1, Body::Ping), req(0, 1, Body::Talk)], None);
+    crossing.session_timeout = Some(Duration::from_millis(1500));
+    crossing.free_app_timing = true;
+    out.push(("crossing-late-answer".to_string(), crossing));
     if thorough {
         out.push(("expiry-three".to_string(), quiet(3, vec![req(0, 1, Body::Ping), req(2, 0, Body::Ping), req(0, 1, Body::Talk), req(0, 2, Body::Talk), req(1, 0, Body::Find(2))], None)));
         out.push(("capacity-2-mixed".to_string(), quiet(4, vec![req(1, 0, Body::Ping), req(0, 2, Body::Ping), req(3, 0, Body::Ping), req(0, 1, Body::Talk), req(0, 3, Body::Talk)], Some(2))));
